@@ -131,7 +131,7 @@ def _one(item):
         return f"unexpected signals {sorted(extra)}"
     if set(ports) - set(want):
         return f"unexpected ports {sorted(set(ports) - set(want))}"
-    return None
+    return ("ok", tuple(sorted((n, w, d) for n, (w, d) in want.items())))
 
 
 def flat_trees():
@@ -186,7 +186,11 @@ def run(ctx):
     res = ctx.pmap(_one, items, chunk=200)
     for it, r in zip(items, res):
         ctx.count(states=1, transitions=2, traces_validated_against_impl=1)
-        ctx.outcome("ok" if r is None else r[:25])
+        if isinstance(r, tuple):
+            ctx.outcome(("flat", r[1]))
+            r = None
+        else:
+            ctx.outcome(r[:25])
         if r:
             depth = 1 + (1 if it[0]["subs"] else 0) + (1 if it[0]["subs"] and it[0]["subs"][0][1]["subs"] else 0)
             what = r.split(":")[0] if r.startswith("raised") else ("direction" if "direction" in r else "visibility" if "port" in r else "name/width")
@@ -206,5 +210,6 @@ def replay(body):
         return {"leaves": [tuple(x) for x in t["leaves"]], "subs": [(s[0], tup(s[1]), s[2], s[3]) for s in t["subs"]]}
 
     r = _one((tup(c["tree"]), c["is_port"], c["inst_flip"], c["inst_role"], c["style"]))
+    r = None if isinstance(r, tuple) else r
     print("replay:", r or "holds")
     return 1 if r else 0
